@@ -6,16 +6,17 @@ use yui_kh::kh::KhComplex;
 fn main() {
     let args: Vec<String> = std::env::args().collect();
     let (h, t): (i64, i64) = (args[1].parse().unwrap(), args[2].parse().unwrap());
-    for (name, pd) in khref::catalogue() {
+    for (name, pd) in khref::catalogue().into_iter().chain(khref::big_catalogue()) {
         for mirror in [false, true] {
+            let t0 = std::time::Instant::now();
             let (h, t) = (BigInt::from(h), BigInt::from(t));
             let l = link_of(&pd, mirror);
             let c = KhComplex::<BigInt>::new(&l, &h, &t, false);
             let kh = c.homology();
             let lib: Vec<String> = kh.support().map(|i| format!("{}:{}+{:?}", i, kh[i].rank(), kh[i].tors())).collect();
             let rc = khref::cube_complex::<BigInt>(&pd, mirror, &h, &t, false).unwrap();
-            let sig: Vec<String> = khref::homology_signature(&rc).iter().map(|s| format!("{}:{}+{:?}", s.0, s.1, s.2)).collect();
-            println!("{} mirror={} signs={:?}\n  lib {:?}\n  ref {:?}", name, mirror, khref::signed_crossings(&pd, mirror), lib, sig);
+            let sig: Vec<String> = khref::homology_signature(&rc, &|x: &BigInt| num_traits::Signed::abs(x)).iter().map(|s| format!("{}:{}+{:?}", s.0, s.1, s.2)).collect();
+            println!("{} mirror={} signs={:?} {:?}\n  lib {:?}\n  ref {:?}", name, mirror, khref::signed_crossings(&pd, mirror), t0.elapsed(), lib, sig);
         }
     }
 }
